@@ -286,7 +286,9 @@ pub async fn round(run: &mut Run, disc: SignedEntityTypeDiscriminants, early: bo
     let mut honest: BTreeMap<String, SingleSignature> = BTreeMap::new();
     for s in &signers {
         let f = fixtures.iter().find(|f| f.signer_with_stake.party_id == s.party_id).unwrap();
-        if let Ok(ss) = builder.restore_signer_from_initializer(s.party_id.clone(), f.protocol_initializer.clone()) {
+        let fi = fixtures.iter().position(|x| x.signer_with_stake.party_id == s.party_id).unwrap();
+        let _ = f;
+        if let Ok(ss) = builder.restore_signer_from_initializer(s.party_id.clone(), run.initializer_at(epoch, fi)) {
             if let Ok(Some(sig)) = ss.sign(&message) {
                 honest.insert(s.party_id.clone(), sig);
             }
